@@ -20,6 +20,8 @@ func init() {
 		Assumptions: []string{"locks are identified by access path (no aliasing of mutexes)", "sort.Slice/sort.Search and friends invoke their callback synchronously"},
 		Run:         runC11,
 		Controls: []Control{
+			{Name: "revert-F39-trailer-unlocked", File: "pkg/wrap/stream.go", Old: "func (c *clientStream) Trailer() metadata.MD {\n\tc.trailerM.Lock()\n\tdefer c.trailerM.Unlock()\n", New: "func (c *clientStream) Trailer() metadata.MD {\n", Expect: "R11.5"},
+			{Name: "revert-F40-late-setheader", File: "pkg/wrap/stream.go", Old: "func (s *serverStream) SetHeader(md metadata.MD) error {\n\ts.headerM.Lock()\n\tdefer s.headerM.Unlock()\n\n\tselect {\n\tcase <-s.headerC:\n\t\t// like a real server: once the headers have gone out (the client may be reading them) they can't be added to\n\t\treturn errors.New(\"headers already sent\")\n\tdefault:\n\t}\n", New: "func (s *serverStream) SetHeader(md metadata.MD) error {\n", Expect: "R11.5"},
 			{Name: "revert-F35-shared-default-rng", File: "pkg/trait/electricpb/model_opts.go", Old: "\tWithClock(clock.Real()),\n", New: "\tWithClock(clock.Real()),\n\tWithRNG(rand.New(rand.NewSource(rand.Int63()))),\n", Expect: "R11.1"},
 			{Name: "get-without-rlock", File: "pkg/resource/value.go", Old: "\tr.mu.RLock()\n\tdefer r.mu.RUnlock()\n\treturn req.FilterClone(r.value)", New: "\treturn req.FilterClone(r.value)", Expect: "R11.1"},
 			{Name: "router-has-without-lock", File: "pkg/router/router.go", Old: "\tr.mu.RLock()\n\tdefer r.mu.RUnlock()\n\t_, exists := r.registry[name]", New: "\t_, exists := r.registry[name]", Expect: "R11.1"},
@@ -59,6 +61,12 @@ func runC11(c *an.Ctx) {
 	r112append(c)
 	r113(c)
 	r113header(c)
+	// stored items are read without a lock after they were looked up (Delete evaluates its preconditions on the
+	// item it found): that is race-free only because an item is never written once it is in the map
+	r026(c, "R11.4")
+	c.Min("R11.4", 3)
+	r115(c)
+	c.Min("R11.5", 3)
 	c.Min("R11.1", 40)
 	c.Min("R11.2", 60)
 	c.Min("R11.3", 4)
@@ -494,4 +502,122 @@ func r111shared(c *an.Ctx) {
 		}
 	}
 	c.Count("package_initialisers", n)
+}
+
+// r115: the metadata a wrapped stream hands from the handler's goroutine to the client's. A cancelled call returns to
+// the client while the handler may still be running, so "the handler has finished" orders nothing:
+//   - trailer: every access (SetTrailer on the server side, Trailer on the client side) holds one common mutex;
+//   - header: written only under headerM and only while headerC is still open (close(headerC), also under headerM, is
+//     what publishes it to Header() - see R11.3 for the reading side), so nothing writes it once a client may read it.
+func r115(c *an.Ctx) {
+	const rule = "R11.5"
+	w := lockWorld(c)
+	isField := func(v ssa.Value, f string) bool {
+		_, sn, fld, ok := an.FieldOf(v)
+		return ok && fld == f && strings.HasSuffix(sn, "/pkg/wrap.ClientServerStream")
+	}
+	type access struct {
+		in    ssa.Instruction
+		fn    *ssa.Function
+		write bool
+	}
+	collect := func(field string) []access {
+		var out []access
+		for _, fn := range c.Prog.FuncsIn("pkg/wrap") {
+			if fn.Name() == "NewClientServerStream" {
+				continue
+			}
+			an.Instrs(fn, func(in ssa.Instruction) {
+				switch x := in.(type) {
+				case *ssa.Store:
+					if isField(x.Addr, field) {
+						out = append(out, access{in, fn, true})
+					}
+				case *ssa.UnOp:
+					if x.Op == token.MUL && isField(x.X, field) {
+						out = append(out, access{in, fn, false})
+					}
+				}
+			})
+		}
+		return out
+	}
+	// trailer
+	tr := collect("trailer")
+	if len(tr) == 0 {
+		c.Unk(rule, "pkg/wrap.ClientServerStream.trailer|accesses", 0, "no access to the trailer found")
+	} else {
+		var common map[string]bool
+		var where ssa.Instruction
+		for _, a := range tr {
+			cur := map[string]bool{}
+			for k, m := range w.At(a.in) {
+				if !a.write || m >= an.WLock {
+					cur[lockField(k)] = true
+				}
+			}
+			if len(cur) == 0 && where == nil {
+				where = a.in
+			}
+			if common == nil {
+				common = cur
+				continue
+			}
+			for k := range common {
+				if !cur[k] {
+					delete(common, k)
+				}
+			}
+		}
+		pos := tr[0].in.Pos()
+		if where != nil {
+			pos = where.Pos()
+		}
+		for _, a := range tr {
+			c.SawFunc(an.FuncName(a.fn))
+		}
+		c.Check(len(common) > 0, rule, "pkg/wrap.ClientServerStream.trailer|every access holds one common mutex", pos, fmt.Sprintf("%d accesses", len(tr)),
+			"the trailer is written by the handler (SetTrailer) and read by the client (Trailer) without a common lock: a client whose context is cancelled reads it while the handler is still running - a data race (the read is not ordered after the handler's end)")
+	}
+	// header writes
+	n := 0
+	for _, a := range collect("header") {
+		if !a.write {
+			continue
+		}
+		n++
+		held := w.At(a.in)
+		locked := false
+		for k, m := range held {
+			if strings.HasSuffix(k, ".headerM") && m >= an.WLock {
+				locked = true
+			}
+		}
+		open := false
+		for _, e := range an.GuardingEdges(a.in) {
+			bo, isBO := e.If.Cond.(*ssa.BinOp)
+			if !isBO {
+				continue
+			}
+			ex, isEx := bo.X.(*ssa.Extract)
+			if !isEx {
+				continue
+			}
+			sel, isSel := ex.Tuple.(*ssa.Select)
+			if !isSel || sel.Blocking {
+				continue
+			}
+			for _, st := range sel.States {
+				if st.Dir == types.RecvOnly && isField(st.Chan, "headerC") && !e.Branch {
+					open = true
+				}
+			}
+		}
+		c.SawFunc(an.FuncName(a.fn))
+		c.Check(locked && open, rule, an.FuncName(a.fn)+"|the header is written only before it is handed to the client", a.in.Pos(), "under headerM, headerC still open",
+			fmt.Sprintf("the header is written without headerM (held: %v) or without first seeing headerC still open (%v): once headerC is closed a client may be reading the header, so a handler that adds headers late races with it (a real server rejects the late call)", locked, open))
+	}
+	if n == 0 {
+		c.Unk(rule, "pkg/wrap.ClientServerStream.header|writes", 0, "no write of the header found")
+	}
 }
